@@ -47,6 +47,26 @@ Theorem C01_dtor_drains_all : forall rcap scap share n0 tr1 s1 d tr3 s,
 Proof. exact dtor_drains_all. Qed.
 Print Assumptions C01_dtor_drains_all.
 
+(* The same statement under the contract as literally documented ("... while any OTHER thread makes calls to the pool"), i.e. without forbidding
+   submissions by tasks that the destructor's own drains run: *)
+Definition C01_full_statement : Prop :=
+  forall rcap scap share n0 tr1 s1 d tr3 s,
+  accepts rcap scap share (init share n0) tr1 = Some s1 -> quiet s1 d ->
+  Forall (contract_event_weak s1 d) tr3 ->
+  accepts rcap scap share s1 ((d, EDtorBegin) :: tr3 ++ [(d, EDtorEnd)]) = Some s ->
+  forall t, In t (gens s) -> cnt t (done s) = 1.
+
+(* It is FALSE of the code as written: ~ThreadPool drains the central queue BEFORE the locality rings and the steal rings and never looks at it
+   again, and numThreads_ is still non-zero, so a task that one of those ring drains runs and that calls pool.schedule() enqueues a child
+   that nobody will ever run (witness = trace of the real code, replayed on every run; known finding dtor-drain-task-reschedules).
+   C01_dtor_drains_all above is the property on the complement: no task generated after the destructor began. *)
+Theorem C01_refuted : ~ C01_full_statement.
+Proof.
+  intros F. destruct c01_late_witness as (s1 & s & H1 & Q & Hf & H & _ & Hg & Hd & _).
+  specialize (F 16 32 8 1 _ _ _ _ _ H1 Q Hf H 1). rewrite Hg, Hd in F. specialize (F (or_introl eq_refl)). vm_compute in F. discriminate F.
+Qed.
+Print Assumptions C01_refuted.
+
 (* zero-thread pool: forceEnqueue reads numThreads_ == 0 and the submitter's next event is the inline call of that task *)
 Theorem C01_zero_thread_pool_runs_inline : forall rcap scap share s tid nz s1,
   numThreads s = 0 -> accept rcap scap share s tid (ELoadNumThreads nz 1) = Some s1 ->
